@@ -94,7 +94,10 @@ class Machine:
             self.nf = max(self.nf, first + k - 1)
             return r
         if op == "slice":
-            return self._new(L[a[0]][slice(_n(a[1]), _n(a[2]), _n(a[3]))])
+            sl = [_n(a[1]), _n(a[2]), _n(a[3])]
+            if self.use_numpy_index:
+                sl = [None if x is None else np.int64(x) for x in sl]
+            return self._new(L[a[0]][slice(*sl)])
         if op == "fancy":
             idx = list(a[1])
             # every kind of "iterable of integers": list, ndarray, tuple, one-shot generator / iterator
@@ -109,7 +112,8 @@ class Machine:
                 idx = iter(idx)
             return self._new(L[a[0]][idx])
         if op == "repeat":
-            return self._new(L[a[0]].repeat(a[1]))
+            # (a count computed with numpy is a count)
+            return self._new(L[a[0]].repeat(np.int64(a[1]) if self.use_numpy_index else a[1]))
         if op == "concat":
             return self._new(L[a[0]] + L[a[1]])
         if op == "concat_plain":
